@@ -362,7 +362,7 @@ def _kernel_inputs(n):
     return preds, var, dist
 
 
-def scoring_run(n, budget, chooser):
+def scoring_run(n, budget, chooser, rng=None):
     """One execution of the real kernel; returns (records, raised)."""
     preds, var, dist = _kernel_inputs(n)
     rec = []
@@ -375,7 +375,7 @@ def scoring_run(n, budget, chooser):
 
     G.get_combination_at_sorted_index = wrapper
     try:
-        rng = ScriptedGenerator(chooser)
+        rng = ScriptedGenerator(chooser) if rng is None else rng
         try:
             scores = G.dbal_fast_gauss_scoring_vectorized(
                 predictions=preds, variances=var, distance_matrix=dist, rng=rng, max_combos=budget
@@ -387,7 +387,7 @@ def scoring_run(n, budget, chooser):
     return rec, None, scores
 
 
-def entry_run(entry, n, budget, chooser):
+def entry_run(entry, n, budget, chooser, scorer_obj=None):
     """The same observation through the public entry points that own a budget of their own: the scorer
     (max_triples) and the two ragged-array wrappers (max_combos)."""
     from . import c05
@@ -418,7 +418,7 @@ def entry_run(entry, n, budget, chooser):
                         for e, k in enumerate(keys[p_]):
                             mt[k], vt[k] = m[p_][t][e], v[p_][t][e]
                     holder.add_theta(c05.TableTheta(mt, vt))
-                G.GaussianDBALScorer(max_triples=budget).score(
+                (scorer_obj if scorer_obj is not None else G.GaussianDBALScorer(max_triples=budget)).score(
                     plates={int(plates[p_].plate_id): plates[p_] for p_ in range(len(sizes))},
                     distance_matrix=c05.make_distance_matrix(D), samples=holder, rng=rng, progress_bar=False)
             elif entry == "hetero":
@@ -462,7 +462,7 @@ def judge_scoring(col, n, budget, choices, rec, exc, entry="kernel"):
     if not rec:
         raise ObservationPointGone("the kernel returned without calling get_combination_at_sorted_index")
     triples = [r[3] for r in rec]
-    all_triples = set(ref_all(n, 3))
+    all_triples = set(ref_all(n, 3)) if budget >= total else None  # only needed for the covering-budget clause
     if any(r[1] != n or r[2] != 3 for r in rec):
         col.violation(f"{PROP}|scoring|wrong-n-or-k", f"unranking called with (n,k)={[(r[1], r[2]) for r in rec][:3]} for {n} thetas", case)
     elif any(len(t) != 3 or len(set(t)) != 3 or min(t) < 0 or max(t) >= n for t in triples):
@@ -589,6 +589,7 @@ def plan(tier, seed):
             for p in range(parts):
                 items.append({"kind": "lattice", "n": n, "part": p, "parts": parts})
     items.append({"kind": "cross-k", "ns": list(range(0, 13))})
+    items.append({"kind": "scorer-history", "histories": [[5000, [4, 6]], [5000, [6, 4, 7]], [20, [4, 6, 5]], [10, [5, 4, 5]], [5000, [3, 12]]]})
     for c in range(0, len(CONSUMED), 3):
         items.append({"kind": "consumed", "cases": CONSUMED[c:c + 3]})
     for entry in ("scorer", "hetero", "homo"):
@@ -626,13 +627,39 @@ def ref_score_over(triples, preds_p, var_p, dist):
     return mx + math.log(sum(math.exp(t - mx) for t in terms))
 
 
+class SpreadAnswers:
+    """Scripted answer for the one draw of the kernel when the population is far too large for the choice tree: `size`
+    distinct indices spread evenly over the whole population, the last index included (so the largest theta indices are
+    used), in descending order."""
+
+    def __init__(self):
+        self.draws = []
+
+    def choice(self, a, size=None, replace=True, p=None, axis=0, shuffle=True):
+        total = int(a)
+        k = int(size)
+        if k > total:
+            raise ValueError("Cannot take a larger sample than population when replace is False")
+        idx = sorted({(total - 1) - (j * (total - 1)) // max(k - 1, 1) for j in range(k)}, reverse=True)
+        j = 0
+        while len(idx) < k:  # collisions only when k is close to total
+            if j not in idx:
+                idx.append(j)
+            j += 1
+        self.draws.append(list(idx))
+        return np.array(idx, dtype=np.int64)
+
+
 def run_consumed(col, n, budget):
     """The triples are also observed where they are CONSUMED: the returned score must equal the Monte-Carlo sum over
     exactly the triples that were unranked, each once (a triple evaluated twice, or dropped, after unranking changes it)."""
     ch = Chooser()
-    rec, exc, scores = scoring_run(n, budget, ch)
+    big = math.comb(n, 3) > 100000
+    rec, exc, scores = scoring_run(n, budget, ch, rng=SpreadAnswers() if big else None)
     col.states += 1
     judge_scoring(col, n, budget, ch.choices[:8], rec, exc)
+    if big and rec and exc is None and max(max(r[3]) for r in rec) < n - 1:
+        raise ObservationPointGone("the spread answer did not reach the largest theta index")
     if exc is not None or scores is None or not rec:
         return
     preds, var, dist = _kernel_inputs(n)
@@ -649,7 +676,10 @@ def run_consumed(col, n, budget):
     col.nontriv("consumed", n, budget)
 
 
-CONSUMED = [(5, 10), (12, 5000), (19, 5000), (20, 5000), (25, 5000), (33, 2500), (33, 1500), (34, 6000), (40, 5000)]
+# ... and many posterior samples with a small budget (theta indices beyond 255 / 65535 must survive whatever compact
+# representation the kernel uses for them)
+CONSUMED = [(5, 10), (12, 5000), (19, 5000), (20, 5000), (25, 5000), (33, 2500), (33, 1500), (34, 6000), (40, 5000),
+            (300, 200), (300, 255), (700, 100)]
 
 
 def run_item(item, col, tier):
@@ -664,6 +694,26 @@ def run_item(item, col, tier):
         for n in item["ns"]:
             for k in (0, 1, 2, 3, 4, 3, 2, 1, 0, 4, 1, 3):
                 run_full(col, n, k)
+        return
+    if kind == "scorer-history":
+        # ONE scorer object (one budget) asked about collections of different sizes, one after the other: every call obeys
+        # the budget clause for ITS number of posterior samples
+        for budget, ns in item["histories"]:
+            scorer = G.GaussianDBALScorer(max_triples=budget)
+            for pos, n in enumerate(ns):
+                ch = Chooser()
+                rec, exc, _ = entry_run("scorer", n, budget, ch, scorer_obj=scorer)
+                col.states += 1
+                per_call = min(math.comb(n, 3), budget)
+                calls = [rec[i:i + per_call] for i in range(0, len(rec), per_call)] if rec and per_call and len(rec) % per_call == 0 else [rec]
+                for call in calls:
+                    before = len(col.violations)
+                    judge_scoring(col, n, budget, ch.choices[:8], call, exc, entry="scorer")
+                    for v in col.violations[before:]:
+                        v["sig"] += "|reused-scorer"
+                        v["what"] = f"one scorer object, collections of sizes {ns[:pos + 1]} in turn: " + v["what"]
+                        v["case"] = {"kind": "scorer-history", "histories": [[budget, ns[:pos + 1]]]}
+                col.nontriv("scorer-history", budget, tuple(ns[:pos + 1]))
         return
     if kind == "entry-budget":
         for budget in item["budgets"]:
@@ -702,6 +752,8 @@ def replay(case, col):
             return
         rec, exc, _s = scoring_run(case["n"], case["budget"], ch)
         judge_scoring(col, case["n"], case["budget"], ch.choices, rec, exc)
+    elif case["kind"] == "scorer-history":
+        run_item({"kind": "scorer-history", "histories": case["histories"]}, col, "quick")
     elif case["kind"] == "consumed":
         run_consumed(col, case["n"], case["budget"])
     else:
